@@ -213,7 +213,8 @@ class SymArray(np.ndarray):
 
     @property
     def device(self):
-        return None
+        # NumPy >= 2 arrays have the array-API attribute `device` ("cpu"); older ones do not have the attribute at all
+        return getattr(np.empty(0), "device")
 
     def astype(self, dt, **kw):
         dt = np.dtype(dt)
